@@ -34,8 +34,8 @@ type c13Entry struct {
 	Exported bool     `json:"exported"`
 	Inst     bool     `json:"instantiates_parser"` // declares a variable of type parser
 	Recover  bool     `json:"recover"`             // deferred closure starts with the recover/bailout/re-raise statement
-	Sorts    bool     `json:"sorts"`               // closure: <p>.errors.Sort(); err = <p>.errors.Err()
-	RawErrs  bool     `json:"raw_errors"`          // closure: err = <p>.errors  (no Sort)
+	Sorts    bool     `json:"sorts"`               // closure: <p>.errors.Sort() directly followed by err = <p>.errors.Err() or err = <p>.errors
+	RawErrs  bool     `json:"raw_errors"`          // closure: err = <p>.errors  (an ErrorList, not an error)
 	NilFile  bool     `json:"fills_nil_file"`      // closure: if f == nil { f = &ast.File{...} }
 	Merges   bool     `json:"merges_errors"`       // p.errors = append(p.errors, <inst>.errors...)
 	Calls    []string `json:"calls"`
@@ -325,8 +325,9 @@ func genC13Parser(e *Env) error {
 					ls := fl.Body.List
 					for k, s := range ls {
 						t := src(s)
-						if strings.HasSuffix(t, ".errors.Sort()") && k+1 < len(ls) && strings.HasPrefix(src(ls[k+1]), "err = ") && strings.HasSuffix(src(ls[k+1]), ".errors.Err()") {
-							en.Sorts = true
+						if strings.HasSuffix(t, ".errors.Sort()") && k+1 < len(ls) && strings.HasPrefix(src(ls[k+1]), "err = ") &&
+							(strings.HasSuffix(src(ls[k+1]), ".errors.Err()") || strings.HasSuffix(src(ls[k+1]), ".errors")) {
+							en.Sorts = true // the error list is sorted directly before it is handed out
 						}
 						if strings.HasPrefix(t, "err = ") && strings.HasSuffix(t, ".errors") {
 							en.RawErrs = true
@@ -371,7 +372,7 @@ func genC13Parser(e *Env) error {
 		}
 		return "false"
 	}
-	out.WriteString("(* functions of interface.go / parser_gop.go and every function instantiating a `parser`:\n   (name, exported, instantiates parser, deferred recover+bailout test+re-raise, Sort;Err, raw errors, fills nil file, merges sub-parser errors, callees) *)\n")
+	out.WriteString("(* functions of interface.go / parser_gop.go and every function instantiating a `parser`:\n   (name, exported, instantiates parser, deferred recover+bailout test+re-raise, Sort directly before err is set, err = p.errors (ErrorList result), fills nil file, merges sub-parser errors, callees) *)\n")
 	out.WriteString("Definition entries : list (str * (bool * bool * bool * bool * bool * bool * bool) * list str) :=\n  [")
 	for i, en := range entries {
 		if i > 0 {
@@ -437,6 +438,17 @@ func genC13Parser(e *Env) error {
 	js["panic_sites"] = panics
 	js["errors_writes"] = writes
 
+	// name -> code of every token.Token constant (the check maps the spellings it uses to names)
+	tc := map[string]int64{}
+	for _, name := range tokp.Types.Scope().Names() {
+		if c, ok := tokp.Types.Scope().Lookup(name).(*types.Const); ok && c.Val().Kind() == constant.Int {
+			if n, ok := c.Type().(*types.Named); ok && n.Obj().Name() == "Token" {
+				v, _ := constant.Int64Val(c.Val())
+				tc[name] = v
+			}
+		}
+	}
+	js["token_consts"] = tc
 	if err := e.WriteJSON("c13parser", js); err != nil {
 		return err
 	}
